@@ -5,11 +5,14 @@ import (
 	"go/constant"
 	"go/token"
 	"go/types"
+	"os"
 	"runtime/debug"
 	"strings"
 
 	"golang.org/x/tools/go/ssa"
 )
+
+var traceCalls = os.Getenv("GOSYM_TRACE") != ""
 
 func stackTrace() string { return string(debug.Stack()) }
 
@@ -177,13 +180,18 @@ func (t *Thread) call(fn *ssa.Function, args []Value, env []Value) Value {
 			unsupportedf("call into non-interpretable package: %s", name)
 		}
 	}
+	if traceCalls {
+		fmt.Fprintf(os.Stderr, "[T%d]%s%s\n", t.ID, strings.Repeat(" ", t.depth), name)
+	}
 	t.depth++
 	if t.depth > ex.H.Opt.MaxDepth {
 		ex.H.incObl()
 		ex.H.recordViolationPC(ex, "no-unbounded-recursion", fmt.Sprintf("call depth exceeds %d at %s", ex.H.Opt.MaxDepth, name))
 		ex.end("depth-bound")
 	}
-	defer func() { t.depth-- }()
+	prevWhere := t.where
+	t.where = name
+	defer func() { t.depth--; t.where = prevWhere }()
 	if ex.funcs != nil && fn.Synthetic == "" {
 		ex.funcs[name] = true
 	}
